@@ -929,8 +929,10 @@ namespace
                     std::string cls;
                     if (g_fault.sig == SIGABRT)
                         cls = sim::fmt("C04/assertion-abort(%s)", e.form); // the library's own assert fired on a pointer the contract allows
+                    else if ((a < (uintptr_t)g_mem.base || a >= (uintptr_t)g_mem.base + 5 * PAGE) && a != 0 && g_fault.code != SI_KERNEL)
+                        cls = sim::fmt("C04/%s-outside(%s,far-away)", is_write ? "write" : "read", e.form); // an unmapped address beyond the whole simulated address space
                     else if (a < (uintptr_t)g_mem.base || a >= (uintptr_t)g_mem.base + 5 * PAGE)
-                        cls = sim::fmt("C04/misaligned-trap(%s)", e.form); // #GP: si_addr is 0 for an alignment fault of an aligned instruction
+                        cls = sim::fmt("C04/misaligned-trap(%s)", e.form); // #GP: si_addr is 0 for an alignment fault of an aligned instruction (and for a non-canonical address)
                     else if (hole && a >= (uintptr_t)g_mem.data + PAGE && a < (uintptr_t)g_mem.data + 2 * PAGE)
                         cls = sim::fmt("C04/%s-outside(%s,between-indexed-elements)", is_write ? "write" : "read", e.form);
                     else if (rel < 0)
